@@ -175,6 +175,13 @@ Fixpoint seq_expected (bounds : list (Z * list gscalar)) (stash : list gscalar) 
   | SRecall :: r => stash :: seq_expected bounds stash r
   end.
 
+(* DOk: the callee returns; DThrow cls: it throws an error of that class (at some recursion depth) *)
+Inductive dop := DOk | DThrow (cls : Z).
+
+(* every call, returning or throwing, leaves the scope chain as it found it: nothing is consumed *)
+Definition depth_expected (ops : list dop) : list Z :=
+  map (fun o => match o with DOk => 0 | DThrow c => c end) ops ++ [0; 0; 0].
+
 Inductive case :=
 | CExport (path : Z) (g : gscalar) (obs : ob gscalar)
 | CToFloat (path : Z) (g : gscalar) (onum : Z) (obs : ob Z)
@@ -204,6 +211,15 @@ Inductive case :=
 | CCall (api : Z) (args : list gscalar) (obs_api obs_lang : ob (list (list Z)))
 (* the callee throws / is not callable: error classes of the API call and of the in-language call *)
 | CCallErr (api : Z) (cls_api cls_lang : Z)
+(* one script object handed back to the runtime in one of its Go spellings (0 otto.Value, 1 *otto.Object,
+   2 otto.Object by value) along a path (0 Otto.Set, 1 Otto.ToValue then Set, 2 Object.Set, 3 argument of
+   Otto.Call, 4 of Value.Call, 5 of Object.Call, 6 this of Value.Call, 7 this of Otto.Call): it must be the
+   very same object (===), typeof object/function, and Export the same data *)
+| CObjHandle (spelling path : Z) (data : jv) (ident : ob bool) (ty : ob Z) (exp : ob gv)
+(* failing and succeeding API calls on a runtime with a stack depth limit: error class of every call, then the
+   change of (deepest recursion reachable through Otto.Call, through a script, length of Error().stack)
+   against the measurements taken before the history; lang: the same history made in-language *)
+| CDepthHist (limit : Z) (ops : list dop) (api lang : list Z)
 (* a sequence of calls made through the Go API against the same sequence made in-language *)
 | CCallSeq (steps : list cstep) (obs_api obs_lang : list (ob (list (list Z))))
 (* histories of writes and reads of bindings: store 0 = global names (Otto.Set/Get), 1 = properties of a
@@ -373,6 +389,16 @@ Definition verdict_callseq (steps : list cstep) (obs_api obs_lang : list (ob (li
 Definition verdict (c : case) : Z * Z :=
   match c with
   | CCallSeq steps a l => verdict_callseq steps a l
+  | CObjHandle _ _ data ident ty exp =>
+      let m := export_m data in
+      judge (fun a b : ob bool * ob Z * ob gv =>
+               ob_eqb Bool.eqb (fst (fst a)) (fst (fst b)) && ob_eqb Z.eqb (snd (fst a)) (snd (fst b)) &&
+               ob_eqb gv_eqb (snd a) (snd b))
+            (ident, ty, exp) (OVal true, OVal 5, of_res m) (OVal true, OVal 5, OVal (export_s data))
+            (match m with Panic => 5 | Ok _ => 6 end)
+  | CDepthHist _ ops api lang =>
+      let e := depth_expected ops in
+      judge (fun a b => zlist_eqb (fst a) (fst b) && zlist_eqb (snd a) (snd b)) (api, lang) (e, e) (e, e) 0
   | CJsVal ty jnum jstr jbool jisnan preds gnan gnum gint gstr gbool =>
       verdict_jsval ty jnum jstr jbool jisnan preds gnan gnum gint gstr gbool
   | CCall _ args obs_api obs_lang => verdict_call args obs_api obs_lang
